@@ -609,10 +609,17 @@ def _find_views(
     cache = registry._view_lookup_cache
     # the classifier and the view types are part of the key: an exception
     # view lookup must not be answered with the views cached for an ordinary
-    # lookup of the same interfaces and name (and vice versa)
+    # lookup of the same interfaces and name (and vice versa).  The two
+    # specifications are represented by their resolution orders, which is all
+    # the scan below depends on: a specification object is updated in place
+    # when what a class or an object provides changes (classImplements,
+    # alsoProvides, ...), and an entry cached for its earlier meaning must not
+    # answer for the new one.
+    request_sro = request_iface.__sro__
+    context_sro = context_iface.__sro__
     cache_key = (
-        request_iface,
-        context_iface,
+        request_sro,
+        context_sro,
         view_name,
         view_classifier,
         view_types,
@@ -620,9 +627,7 @@ def _find_views(
     views = cache.get(cache_key)
     if views is None:
         views = []
-        for req_type, ctx_type in itertools.product(
-            request_iface.__sro__, context_iface.__sro__
-        ):
+        for req_type, ctx_type in itertools.product(request_sro, context_sro):
             source_ifaces = (view_classifier, req_type, ctx_type)
             for view_type in view_types:
                 view_callable = registered(
